@@ -198,6 +198,7 @@ Proof.
 Qed.
 
 (* ------------------------------------------------------------------ the Set loop of a fixed-size wrapper *)
+Local Opaque slot_ok slot_expected.
 Definition slots_of gets gelse sets selse (is : list nat) : list (nat * getr * setr) :=
   map (fun i => (i, getr_at gets gelse i, setr_at sets selse i)) is.
 
@@ -226,6 +227,7 @@ Proof.
   rewrite (slot_expected_keys tbl st n x H1), IH; auto.
 Qed.
 
+Local Transparent slot_ok slot_expected.
 (* what a fixed-size round trip leaves in every field *)
 Lemma fixed_rebuild tbl st r n size gets gelse sets selse :
   r_shape r = Fixed size gets gelse sets selse ->
@@ -315,6 +317,7 @@ Proof.
 Qed.
 
 (* ------------------------------------------------------------------ variable-length wrappers (New + Append) *)
+Local Open Scope list_scope.
 Lemma list_of_upd lf l m : list_of (upd lf (VList (Some l)) m lf) = Some l.
 Proof. now rewrite upd_same. Qed.
 
@@ -323,25 +326,25 @@ Lemma append_loop tbl st r n lf v setc appc t l :
   conv_id_on tbl (KChild t) v appc = true ->
   (forall c, In c l -> child_ok tbl t (c_dyn c) = true) ->
   forall suf pre m, l = pre ++ suf -> list_of (m lf) = Some pre ->
-    exists m', set_all tbl st r n m (seq (length pre) (length suf)) = Ok m' /\
+    exists m', set_all tbl st r n m (seq (List.length pre) (List.length suf)) = Ok m' /\
                list_of (m' lf) = Some l /\ (forall f, f <> lf -> m' f = m f) /\
                (suf <> [] -> m' lf = VList (Some l)).
 Proof.
   intros Hs Hl Hid Hwt. induction suf as [|c suf IH]; intros pre m Hsplit Hm.
   - simpl. exists m. rewrite app_nil_r in Hsplit. subst. repeat split; auto. tauto.
   - simpl. unfold sem_get. rewrite Hs, Hl.
-    assert (Hnth : nth_error l (length pre) = Some c).
+    assert (Hnth : nth_error l (List.length pre) = Some c).
     { subst l. rewrite nth_error_app2 by lia. now rewrite Nat.sub_diag. }
     rewrite Hnth.
     assert (Hc : child_ok tbl t (c_dyn c) = true).
     { apply Hwt. subst l. apply in_or_app. right. now left. }
     destruct (conv_id_child _ _ _ _ c Hid Hc) as [a [Ha Hconv]]. rewrite Ha.
-    rewrite Hs. unfold sem_append. rewrite Hs, Hm, Hconv.
+    unfold sem_append. rewrite Hs, Hm, Hconv.
     set (m1 := upd lf (VList (Some (pre ++ [c]))) m).
     destruct (IH (pre ++ [c]) m1) as [m' [Hset [Hlm [Hoth Hne]]]].
     + subst l. now rewrite <- app_assoc.
     + unfold m1. apply list_of_upd.
-    + rewrite app_length in Hset. simpl in Hset. replace (length pre + 1) with (S (length pre)) in Hset by lia.
+    + rewrite app_length in Hset. simpl in Hset. replace (List.length pre + 1) with (S (List.length pre)) in Hset by lia.
       exists m'. split; [exact Hset|]. split; [exact Hlm|]. split.
       * intros f Hf. rewrite Hoth by assumption. unfold m1. now apply upd_other.
       * intros _. destruct suf as [|c' suf'].
@@ -370,7 +373,7 @@ Proof.
                          (n lf = VList (Some l) \/ (n lf = VList None /\ l = []))).
   { destruct (n lf) as [z|c|[l|]]; simpl in Hw0; try tauto.
     - exists l. simpl. auto.
-    - exists []. simpl. split; auto. split; auto. intros c []. }
+    - exists []. simpl. repeat split; auto; intros c []. }
   destruct Hl as [l [Hl [Hcs Hshape]]].
   apply negb_true_iff in Hlfnew.
   assert (Hm0 : list_of (sem_new st r n lf) = Some []).
